@@ -415,15 +415,14 @@ func runQuery(in input, c *hx.Case) error {
 		listing(dir) == ls && listing(base) == "ref.sqlite3|tracedir",
 		false, false, false, false, false,
 	}
-	// the server's own pool afterwards
+	// the server's own pool afterwards.  Order matters: the state the tool call left behind is
+	// probed BEFORE any further data_query runs (a later successful call would reset the flag).
 	var cnt int
 	integ[4] = pool.QueryRow("SELECT count(*) FROM trace").Scan(&cnt) == nil && cnt == 240
 	if got, derr := dump(pool); derr == nil && got == wantDump {
 		integ[3] = true
 	}
-	second, serr := srv.VerifRunDataQuery(context.Background(), "SELECT 1 AS one")
-	integ[5] = serr == nil && second == "[1 rows]\none\n1\n"
-	// every idle pooled connection must have query_only off
+	// every pooled connection must have query_only off
 	qoOff := true
 	n := pool.Stats().OpenConnections
 	var held []*sql.Conn
@@ -443,8 +442,19 @@ func runQuery(in input, c *hx.Case) error {
 		cn.Close()
 	}
 	integ[6] = qoOff
-	_, werr := pool.Exec("CREATE INDEX IF NOT EXISTS verif_probe ON trace(ID)")
-	integ[7] = werr == nil
+	// the server writes through its pool (ensureIndex builds indexes on demand): a write must work
+	// on whichever pooled connection it gets, and the index must really exist afterwards
+	werrs := 0
+	for i := 0; i < n+1; i++ {
+		if _, werr := pool.Exec(fmt.Sprintf("CREATE INDEX IF NOT EXISTS verif_probe_%d ON trace(ID)", i)); werr != nil {
+			werrs++
+		}
+	}
+	var built int
+	_ = pool.QueryRow("SELECT count(*) FROM sqlite_master WHERE type='index' AND name LIKE 'verif_probe_%'").Scan(&built)
+	integ[7] = werrs == 0 && built == n+1
+	second, serr := srv.VerifRunDataQuery(context.Background(), "SELECT 1 AS one")
+	integ[5] = serr == nil && second == "[1 rows]\none\n1\n"
 
 	// what the filter says, and what the accepted statement yields on the read-only copy
 	safe, sanErr := daisen2.VerifSanitizeReadonlySQL(q, rowCap)
